@@ -54,6 +54,10 @@ def run_case(case, rng):
     from mon.ref.pomdp import PModel
 
     sp = GP.random_pomdp(rng)
+    if rng.random() < 0.12:
+        # a horizon of thousands of steps: values are sums over ~1/(1-gamma) steps, whatever evaluates them has to get that far
+        sp.gamma = rng.choice([0.999, 0.9995])
+        sp.meta["long_horizon"] = True
     pomdp = Bd.build_pomdp(sp, explicit=rng.random() < 0.5)
     S, A, OL = list(pomdp.state_list), list(pomdp.action_list), list(pomdp.observation_list)
     if set(S) != set(sp.states):
